@@ -51,6 +51,12 @@ def _drop_compiled(stem):
     return gone
 
 BUILTINS = ("max", "min", "len", "range", "enumerate", "zip")
+_AST_INDEX = getattr(ast, "Index", ())  # python < 3.9 wraps subscripts in ast.Index
+
+
+def _parse(rel):
+    with open(os.path.join(lib.REPO, rel)) as f:
+        return ast.parse(f.read())
 
 
 class Unsupported(Exception):
@@ -152,7 +158,7 @@ class Tr:
             if not isinstance(n.ctx, ast.Load):
                 raise Unsupported(n, "subscript in non-load context")
             sl = n.slice
-            if isinstance(sl, ast.Index):  # python < 3.9
+            if isinstance(sl, _AST_INDEX):  # python < 3.9
                 sl = sl.value
             if isinstance(sl, ast.Slice):
                 if sl.step is not None:
@@ -197,7 +203,7 @@ class Tr:
                 return "(SAssign %s %s)" % (_s(t.id), self.expr(n.value))
             if isinstance(t, ast.Subscript) and isinstance(t.value, ast.Name):
                 sl = t.slice
-                if isinstance(sl, ast.Index):
+                if isinstance(sl, _AST_INDEX):
                     sl = sl.value
                 if isinstance(sl, (ast.Slice, ast.Tuple)) or (isinstance(sl, ast.Constant) and isinstance(sl.value, str)):
                     raise Unsupported(n, "assignment to a slice / field")
@@ -389,7 +395,7 @@ def regenerate(kernels=None):
         out = os.path.join(GEN, name + ".v")
         try:
             if rel not in trees:
-                trees[rel] = ast.parse(open(os.path.join(lib.REPO, rel)).read())
+                trees[rel] = _parse(rel)
             txt = render(name, rel, qual, ident, trees[rel])
         except Exception as e:  # Unsupported, SyntaxError, OSError, ...
             drift.append("%s: %s: %s" % (name, type(e).__name__, e))
@@ -400,7 +406,10 @@ def regenerate(kernels=None):
             for stem in dependents(name, prop):
                 changed = _drop_compiled(stem) or changed
             continue
-        old = open(out).read() if os.path.exists(out) else None
+        old = None
+        if os.path.exists(out):
+            with open(out) as f:
+                old = f.read()
         if old != txt:
             with open(out, "w") as f:
                 f.write(txt)
@@ -413,7 +422,7 @@ def drifted_kernels():
     bad = {}
     for name, rel, qual, ident, _prop in KERNELS:
         try:
-            render(name, rel, qual, ident, ast.parse(open(os.path.join(lib.REPO, rel)).read()))
+            render(name, rel, qual, ident, _parse(rel))
         except Exception as e:
             bad[name] = "%s: %s" % (type(e).__name__, e)
     return bad
